@@ -1,10 +1,13 @@
 import Harper.Driver.Overlaps
+import Harper.Driver.Lex
 /-! Dispatch table of the model driver: first word of an op line → handler on the remaining words. -/
 namespace Harper.Driver
 
 def handlers : List (String × (List String → String)) := [
   ("ro", handleRo),
-  ("ri", handleRi)
+  ("ri", handleRi),
+  ("lex", handleLex),
+  ("f64", handleF64)
 ]
 
 def handle (line : String) : String :=
